@@ -39,8 +39,9 @@ Render(ts, pg, br) ==
         F[i \in 0..Len(ts)] == IF i = 0 THEN <<>> ELSE F[i - 1] \o (IF i > 1 THEN <<32>> ELSE <<>>) \o one(ts[i])
     IN  F[Len(ts)]
 
-LitAlpha == {97, DQ, SQ, BT, BS, 91, 93}
-IdAlpha  == {97, DQ, SQ, BT, 91, 93, 32}
+\* (233: a two-byte rune - the rewriters work on bytes and must hand every one of them through)
+LitAlpha == {97, DQ, SQ, BT, BS, 91, 93, 233}
+IdAlpha  == {97, DQ, SQ, BT, 91, 93, 32, 233}
 Contents(A, lo) == UNION {[1..n -> A] : n \in lo..MaxContent}
 Lits == {Lit(c) : c \in Contents(LitAlpha, 0)} \cup {[k |-> "lit", c |-> c, bs |-> TRUE] : c \in Contents(LitAlpha, 1)}
 Ids  == {Id(c) : c \in Contents(IdAlpha, 1)}
